@@ -9,11 +9,13 @@
                        thr_default; nrows; data...]
                       -> read_sync, read_sync_digital, read_sync_analog (volts * one), Reader.read(...)[1];
                          each: 0 (exception) | 1 :: rows   (analog: 2 = returns None)
+   6  selector read   [6; typ; c0..c3; ntr; one; thr; gain; usefloor; thr_default; len; selector...; nrows; data...]
+                      selector = 0 i | 1 hs start he stop ht step | 2 items...   -> read_sync(sel), read(sel)[1]
    5  TTL round trip  [5; ns; (init; nev; evs...) x 16]            -> words, then per line ind, sign
 *)
 From Coq Require Import ZArith List Bool.
 From IBL.lib Require Import PyInt RunLib.
-From IBL.C10 Require Import Model.
+From IBL.C10 Require Import Model Select.
 Import ListNotations.
 Open Scope Z_scope.
 
@@ -85,6 +87,23 @@ Definition run (inp : list Z) : list Z :=
          | Some (Some m) => 1 :: enc_list enc_zlist m
          end
       ++ enc_rows (reader_read_sync typ ntr c0 c1 c2 c3 start stop one thr_default gain raw)
+  | 6 :: typ :: c0 :: c1 :: c2 :: c3 :: ntr :: one :: thr :: gain :: usefloor :: thr_default :: rest =>
+      let '(senc, rest') := dec_zlist rest in
+      let sel := match senc with
+                 | [0; i] => Some (IBL.C01.Model.SInt i)
+                 | [1; hs; st; he; en; ht; sp] =>
+                     Some (IBL.C01.Model.SSlice (if hs =? 1 then Some st else None) (if he =? 1 then Some en else None)
+                                     (if ht =? 1 then Some sp else None))
+                 | 2 :: l => Some (IBL.C01.Model.SList l)
+                 | _ => None
+                 end in
+      match sel, rest' with
+      | Some s, nrows :: data =>
+          let raw := chunks (Z.to_nat nrows) (Z.to_nat ntr) data in
+          enc_rows (read_sync_sel typ ntr c0 c1 c2 c3 s one thr gain (usefloor =? 1) raw)
+          ++ enc_rows (reader_read_sync_sel typ ntr c0 c1 c2 c3 s one thr_default gain raw)
+      | _, _ => [-997]
+      end
   | 5 :: ns :: rest =>
       let lines := dec_lines 16 rest in
       let words := map encode_word (render (Z.to_nat ns) lines) in
